@@ -71,7 +71,10 @@ def main():
     if os.path.exists(path):
         old = json.load(open(path))
     for k, v in results.items():
-        old.setdefault(k, {}).update(v)
+        if "error" in v or "error" in old.get(k, {}):
+            old[k] = dict(v)
+        else:
+            old.setdefault(k, {}).update(v)
     json.dump(old, open(path, "w"), indent=1, sort_keys=True)
 
 
